@@ -603,7 +603,15 @@ func nativeReplayArch(replayPath, pkg, arch string) (string, string) {
 		return "error", err.Error()
 	}
 	abs, _ := filepath.Abs(replayPath)
-	cmd := exec.Command("go", "test", "-vet=off", "-count=1", "-v", "-run", "^TestVerifReplay$", "-timeout", "120s", "-overlay", ovPath, "./"+sub)
+	var rf0 replayFile
+	if b, err := os.ReadFile(abs); err == nil {
+		json.Unmarshal(b, &rf0)
+	}
+	testTimeout := "120s"
+	if rf0.Assert == "terminates" {
+		testTimeout = "30s" // a candidate non-termination: confirmed if the real code does not finish either
+	}
+	cmd := exec.Command("go", "test", "-vet=off", "-count=1", "-v", "-run", "^TestVerifReplay$", "-timeout", testTimeout, "-overlay", ovPath, "./"+sub)
 	cmd.Dir = RepoDir
 	cmd.Env = append(goEnv(arch), "VERIF_REPLAY="+abs)
 	outB, _ := cmd.CombinedOutput()
@@ -613,6 +621,8 @@ func nativeReplayArch(replayPath, pkg, arch string) (string, string) {
 		json.Unmarshal(b, &rf)
 	}
 	switch {
+	case rf0.Assert == "terminates" && strings.Contains(out, "test timed out after"):
+		return "confirmed", out
 	case strings.Contains(out, "VERIF-REPLAY: assume-failed"):
 		return "diverged(assume)", out
 	case strings.Contains(out, "path diverged"):
